@@ -10,6 +10,7 @@ import (
 	"go/parser"
 	"go/token"
 	"go/types"
+	"strings"
 
 	"github.com/goplus/gogen/internal/vp"
 )
@@ -266,4 +267,84 @@ func VerifH_C11_enumerators() {
 // verifSameType: identical, or — for named types of a re-checked universe — equal qualified spelling.
 func verifSameType(a, b types.Type) bool {
 	return types.Identical(a, b) || types.TypeString(a, nil) == types.TypeString(b, nil)
+}
+
+// ---------------------------------------------------------------------------
+// C03 over whole programs: every value sub-expression of the round-trip programs is built through
+// the front end and the type the builder reports for it is compared with the type go/types
+// recorded for the same node of the original source (the builder works on go/types' own objects
+// here, so identity of types is decidable with types.Identical).
+func VerifH_C03_roundtrip() {
+	g := &verifGen{}
+	tmpl := vp.Choose("stmt", verifNStmt)
+	g.focus = 1 + vp.Choose("focus", 14)
+	body := g.stmtWith(tmpl, 2)
+	vp.Assume(g.focus <= g.n)
+	vp.Observe("body", body)
+	src := verifRTHeader + "\nfunc body() {\n" + body + "\nb = 7\n}\n"
+	fset := token.NewFileSet()
+	file, err := parser.ParseFile(fset, "p.go", src, 0)
+	vp.Assume(err == nil)
+	info := &types.Info{Types: map[ast.Expr]types.TypeAndValue{}}
+	bad := false
+	tc := types.Config{Importer: importer.Default(), Error: func(error) { bad = true }}
+	upkg, _ := tc.Check("example.com/p", fset, []*ast.File{file}, info)
+	vp.Assume(!bad)
+	orig := verifFindFunc(file, "body")
+	conf := &Config{Types: upkg, Importer: verifImporter{}, HandleErr: func(err error) { panic(err) }}
+	pkg := NewPackage("", "p", conf)
+	fe := &verifFE{pkg: pkg, labels: map[string]*Label{}}
+	nchecked, nbad, nlogical := 0, 0, 0
+	fe.onExpr = func(e ast.Expr, el *Element) {
+		tv, ok := info.Types[e]
+		if !ok || tv.IsVoid() || tv.IsType() || tv.IsBuiltin() || tv.Type == nil || el == nil || el.Type == nil {
+			return
+		}
+		got := el.Type
+		if _, isTuple := tv.Type.(*types.Tuple); isTuple {
+			return // multi-value calls are compared through the variables they initialise
+		}
+		nchecked++
+		if types.Identical(got, tv.Type) {
+			return
+		}
+		if b, isB := got.(*types.Basic); isB && b.Info()&types.IsUntyped != 0 {
+			// an untyped operand: go/types records the type it was converted to by its context
+			if tv.Value != nil || b.Kind() == types.UntypedNil || types.Identical(types.Default(got), tv.Type) {
+				return
+			}
+			if gb, isGB := tv.Type.Underlying().(*types.Basic); isGB && b.Kind() == types.UntypedBool && gb.Info()&types.IsBoolean != 0 {
+				return
+			}
+			if gb, isGB := tv.Type.Underlying().(*types.Basic); isGB && gb.Info()&types.IsNumeric != 0 && b.Info()&types.IsNumeric != 0 {
+				return // non-constant shift of an untyped constant: typed by its context
+			}
+		}
+		if gb, isGB := got.(*types.Basic); isGB && gb.Kind() == types.Bool {
+			if wb, isWB := tv.Type.(*types.Basic); isWB && wb.Kind() == types.UntypedBool {
+				nlogical++ // !, && and || over comparisons give bool where Go keeps untyped bool (C03-F7)
+				return
+			}
+		}
+		nbad++
+		vp.Observe("expr", verifExprText(&Element{Val: e}))
+		vp.Observe("got", types.TypeString(got, nil))
+		vp.Observe("want", types.TypeString(tv.Type, nil))
+	}
+	class := vp.Try(func() {
+		fe.cb = pkg.NewFunc(nil, "body2", nil, nil, false).BodyStart(pkg)
+		fe.declareLabels(orig.Body.List)
+		fe.stmts(orig.Body.List)
+		fe.cb.End()
+	})
+	if class != vp.NoPanic {
+		return // acceptance is C02_roundtrip's subject
+	}
+	vp.Fact("runeconst", verifB2I(strings.Contains(body, "'c'")))
+	vp.Assert("C03.roundtrip.exprtypes", nbad == 0)
+	vp.Fact("logicalmismatch", verifB2I(nlogical > 0))
+	vp.Assert("C03.roundtrip.logical", nlogical == 0)
+	vp.Cover("ALL.c03rt.checked", nchecked > 0)
+	// inferred declarations: every variable the body declares has the type go/types gave it
+	// (compared after the build through the emitted text is C02's job; here: scope objects)
 }
